@@ -496,10 +496,16 @@ package server
 //@   assigns mapof(u.users), mapof(u.userNamespaces)
 //@   may-panic when true
 //@   loop 0 invariant case keys: forall(key string, (has(u.userNamespaces, key) <==> old(has(u.userNamespaces, key)) && !(visited(key) && old(u.userNamespaces[key]) == namespace)) && (has(u.userNamespaces, key) ==> u.userNamespaces[key] == old(u.userNamespaces[key])))
-//@   loop 0 invariant case pwds: forall(name string, forall(p string, (has(u.users, name) && mem(u.users[name], p)) <==> (old(has(u.users, name) && mem(u.users[name], p)) && !exists(key string, visited(key) && old(has(u.userNamespaces, key)) && old(u.userNamespaces[key]) == namespace && userOf(key) == name && passOf(key) == p))))
+//@   loop 0 invariant case pwdsKept:    forall(name string, forall(p string, old(has(u.users, name) && mem(u.users[name], p)) && !exists(key string, visited(key) && old(has(u.userNamespaces, key)) && old(u.userNamespaces[key]) == namespace && userOf(key) == name && passOf(key) == p) ==> has(u.users, name) && mem(u.users[name], p)))
+//@   loop 0 invariant case pwdsOld:     forall(name string, forall(p string, has(u.users, name) && mem(u.users[name], p) ==> old(has(u.users, name) && mem(u.users[name], p))))
+//@   loop 0 invariant case pwdsRemoved: forall(key string, visited(key) && old(has(u.userNamespaces, key)) && old(u.userNamespaces[key]) == namespace ==> !(has(u.users, userOf(key)) && mem(u.users[userOf(key)], passOf(key))))
 //@   loop 0 invariant case seen: forall(key string, visited(key) ==> old(has(u.userNamespaces, key)))
 //@   loop 0 assigns u.users, u.userNamespaces
-//@   loop 1 invariant newPasswords == nil || fresh(newPasswords)
-//@   loop 1 invariant forall(x string, mem(newPasswords, x) <==> (x != password && exists(j, 0, rangeindex + 1, passwords[j] == x)))
+//@   loop 1 invariant (newPasswords == nil || (loopfresh(newPasswords) && !sameArray(newPasswords, passwords))) && allocated(passwords)
+//@   loop 1 assigns \local
+//@   loop 1 invariant case complete: forall(j, 0, rangeindex + 1, passwords[j] != password ==> mem(newPasswords, passwords[j]))
+//@   loop 1 invariant case sound:    forall(x string, mem(newPasswords, x) ==> x != password && mem(passwords, x))
 //@   ensures case keys: forall(key string, (has(u.userNamespaces, key) <==> old(has(u.userNamespaces, key)) && old(u.userNamespaces[key]) != namespace) && (has(u.userNamespaces, key) ==> u.userNamespaces[key] == old(u.userNamespaces[key])))
-//@   ensures case pwds: forall(name string, forall(p string, (has(u.users, name) && mem(u.users[name], p)) <==> (old(has(u.users, name) && mem(u.users[name], p)) && !old(cleared(u, namespace, name, p)))))
+//@   ensures case pwdsKept:    forall(name string, forall(p string, old(has(u.users, name) && mem(u.users[name], p)) && !old(cleared(u, namespace, name, p)) ==> has(u.users, name) && mem(u.users[name], p)))
+//@   ensures case pwdsOld:     forall(name string, forall(p string, has(u.users, name) && mem(u.users[name], p) ==> old(has(u.users, name) && mem(u.users[name], p))))
+//@   ensures case pwdsRemoved: forall(key string, old(has(u.userNamespaces, key)) && old(u.userNamespaces[key]) == namespace ==> !(has(u.users, userOf(key)) && mem(u.users[userOf(key)], passOf(key))))
